@@ -45,7 +45,7 @@ pub fn run(ctx: &Ctx, stats: &mut Stats) {
     let n = ctx.tier.pick(560, 12000);
     run_prop(ctx, stats, "collections", n, gen::collection_strategy(GenCfg::standard()), &check);
     let n2 = ctx.tier.pick(48, 600);
-    let cfg = GenCfg { max_contig: 2200, max_samples: 3, many_samples_pct: 100, single_file: None, vary_presentation: false };
+    let cfg = GenCfg { max_contig: 2200, max_samples: 3, many_samples_pct: 100, single_file: None, vary_presentation: false, swarm_pct: 0 };
     run_prop(ctx, stats, "many-samples", n2, gen::collection_strategy(cfg), &check);
 }
 
